@@ -29,15 +29,22 @@ type ResetProcessor struct {
 	target       interface{}
 	paths        []tree.Path
 	visitedNodes map[*yaml.Node][]string
+	// expanding holds the anchored nodes whose aliases are being expanded (on the recursion stack)
+	expanding map[*yaml.Node]bool
 }
 
 // UnmarshalYAML implement yaml.Unmarshaler
 func (p *ResetProcessor) UnmarshalYAML(value *yaml.Node) error {
 	p.visitedNodes = make(map[*yaml.Node][]string)
+	p.expanding = make(map[*yaml.Node]bool)
 	resolved, err := p.resolveReset(value, tree.NewPath())
 	p.visitedNodes = nil
+	p.expanding = nil
 	if err != nil {
 		return err
+	}
+	if resolved == nil {
+		return fmt.Errorf("!reset cannot be applied to the whole document")
 	}
 	return resolved.Decode(p.target)
 }
@@ -55,6 +62,12 @@ func (p *ResetProcessor) resolveReset(node *yaml.Node, path tree.Path) (*yaml.No
 		if err := p.checkForCycle(node.Alias, path); err != nil {
 			return nil, err
 		}
+		// an alias met while its own anchor is being expanded can never end, whatever the paths look like
+		if p.expanding[node.Alias] {
+			return nil, fmt.Errorf("cycle detected: node at path %s references itself", path)
+		}
+		p.expanding[node.Alias] = true
+		defer delete(p.expanding, node.Alias)
 
 		return p.resolveReset(node.Alias, path)
 	}
